@@ -416,6 +416,9 @@ func (in *c17Interp) exec(line string) string {
 			if w[2] == "live" && len(in.rc.cache) != 0 {
 				in.viol("DeleteOldEntries with everything expired left entries", "C17:expiry-incomplete", "")
 			}
+			if len(in.rc.cache) == 0 {
+				in.poisoned = false // nothing cached any more: the lies of an outside-contract fetcher are gone
+			}
 		case "none":
 			in.rc.DeleteOldEntries(ctx, time.Duration(math.MaxInt64)) // nothing is older than that
 			if len(in.rc.cache) != nBefore {
@@ -683,8 +686,14 @@ func (g *c17Gen) randomHistory(s *zz.Session, name string, size int64, nops int,
 		if contractBreaks && g.rng.Intn(25) == 0 {
 			a, ln, _ := g.shapedRange(size, prev)
 			if ln > 0 {
+				// once the fetcher has lied, which cached entry answers an overlapping read depends on the map
+				// order, so only the exact range is read back (exact hits come first) and then everything expires
 				s.Count("outside-contract-short-read")
 				g.emit("get %d %d short:%d live", a, ln, g.rng.Intn(int(min(ln, 1<<20))))
+				g.emit("get %d %d fail live", a, ln)
+				g.emit("dump")
+				g.emit("deleteold all live")
+				prev = nil
 			}
 		}
 		if contractBreaks && g.rng.Intn(40) == 0 {
@@ -694,6 +703,10 @@ func (g *c17Gen) randomHistory(s *zz.Session, name string, size int64, nops int,
 			}
 			s.Count("outside-contract-foreign-set")
 			g.emit("set %d %d %s live", a, ln, zz.Hex(g.rng.Bytes(int(ln))))
+			g.emit("get %d %d fail live", a, ln)
+			g.emit("dump")
+			g.emit("deleteold all live")
+			prev = nil
 		}
 	}
 	g.emit("dump")
@@ -856,9 +869,10 @@ func c17Concurrent(s *zz.Session, rng *zz.RNG, readers, opsPer int, size int) (b
 	}
 	var bg sync.WaitGroup
 	bg.Add(2)
+	seedA, seedB := rng.U64(), rng.U64()
 	go func() { // expiry interleaved with the reads
 		defer bg.Done()
-		rg := zz.NewRNG(rng.U64())
+		rg := zz.NewRNG(seedA)
 		for !done.Load() {
 			if rg.Intn(4) == 0 {
 				rc.DeleteOldEntries(ctx, time.Duration(math.MinInt64))
@@ -870,7 +884,7 @@ func c17Concurrent(s *zz.Session, rng *zz.RNG, readers, opsPer int, size int) (b
 	}()
 	go func() { // SetRange with the file's bytes
 		defer bg.Done()
-		rg := zz.NewRNG(rng.U64())
+		rg := zz.NewRNG(seedB)
 		g := &c17Gen{rng: rg}
 		for !done.Load() {
 			a, ln, _ := g.shapedRange(int64(size), nil)
@@ -931,6 +945,10 @@ func TestVerifC17(t *testing.T) {
 			if l != "" && !strings.HasPrefix(l, "#") {
 				ops = append(ops, l)
 			}
+		}
+		if strings.Contains(string(data), "\nnewhttp ") {
+			s.Op("case replay-not-applicable", "ok", false) // a replay of the HTTP half (TestVerifC17HTTP)
+			return
 		}
 		c17Interpret(s, ops)
 		return
